@@ -22,7 +22,7 @@ ASSUMPTIONS = ["exact rational arithmetic (fractions) for all predicates", "quer
 FLOORS = {'quick': {'ray-status': 1500, 'ray-params': 500, 'is_left': 1500, 'wn_poly': 5000, 'hull': 300, 'voxel-fill': 1500,
                     'voxel-cover': 500, 'find_ctrlpts': 300},
           'thorough': {'ray-status': 15000, 'wn_poly': 50000, 'hull': 3000, 'voxel-fill': 15000}}
-MANDATORY_TAGS = ['ray:cross2d', 'ray:cross3d', 'ray:parallel', 'ray:coincident', 'ray:skew', 'vox:planar-axis-aligned', 'ray:generic-cross2d', 'ray:generic-cross3d', 'ray:coords<=1000', 'ray:scale=2^-24', 'ray:scale=2^20', 'poly:star', 'poly:orthogonal',
+MANDATORY_TAGS = ['ray:cross2d', 'ray:cross3d', 'ray:parallel', 'ray:coincident', 'ray:skew', 'vox:planar-axis-aligned', 'ray:near-parallel', 'ray:generic-cross2d', 'ray:generic-cross3d', 'ray:coords<=1000', 'ray:scale=2^-24', 'ray:scale=2^20', 'poly:star', 'poly:orthogonal',
                   'poly:cw', 'poly:ccw', 'hull:collinear', 'vox:surface', 'vox:volume', 'vox:cubes', 'find:unnormalized']
 TECHNIQUE = ("runtime monitoring: exact-arithmetic oracles (orientation, crossing parity, definitional hull test, exact line "
              "intersection, point-in-box) on every predicate / query call of a constructed-class workload")
@@ -157,11 +157,32 @@ def check_rays_generic(case, ctx):
         dim = rng.choice([2, 3])
         M = rng.choice([10, 100, 1000])
         sc = 2.0 ** rng.choice([0, 0, 0, -24, -10, 10, 20])
-        cls = rng.choice(['cross-int', 'cross-int', 'generic', 'skew', 'coincident'])
+        cls = rng.choice(['cross-int', 'cross-int', 'generic', 'skew', 'coincident', 'near-parallel', 'near-parallel'])
 
         def P(m=M):
             return [rng.randint(-m, m) for _ in range(dim)]
-        if cls == 'cross-int':
+        if cls == 'near-parallel':
+            # two lines through one (dyadic) point whose directions differ by a tiny dyadic amount: they intersect, at an angle of
+            # 2^-8 .. 2^-24 rad - far above the COLINEAR threshold of 256 eps
+            M = 10
+            X = [rng.randint(-40, 40) / 8.0 for _ in range(dim)]
+            d1 = [float(rng.randint(-8, 8)) for _ in range(dim)]
+            if not any(d1):
+                continue
+            perp = [float(rng.randint(-4, 4)) for _ in range(dim)]
+            e_ = 2.0 ** -rng.choice([8, 12, 16, 20, 24])
+            d2 = [x + e_ * y for x, y in zip(d1, perp)]
+            if not any(cross3([F(x) for x in d1] + [F(0)] * (3 - dim), [F(x) for x in d2] + [F(0)] * (3 - dim))):
+                continue
+            k1, k2 = rng.choice([-1.25, 0.5, 2.0, 3.75]), rng.choice([0.0, -0.5, 1.5])
+            a = [x - k1 * e for x, e in zip(X, d1)]
+            b = [x + e for x, e in zip(a, d1)]
+            c = [x - k2 * e for x, e in zip(X, d2)]
+            d = [x + e for x, e in zip(c, d2)]
+            if any(F(u_) + F(v_) != F(u_ + v_) for u_, v_ in zip(a, d1)) or any(F(u_) + F(v_) != F(u_ + v_) for u_, v_ in zip(c, d2)) or \
+                    any(F(x) - F(k2) * F(e) != F(cc) for x, e, cc in zip(X, d2, c)) or any(F(x) - F(k1) * F(e) != F(aa) for x, e, aa in zip(X, d1, a)):
+                continue          # (keep only data where every end point is exactly what the construction says)
+        elif cls == 'cross-int':
             X = P()
             d1, d2 = P(max(2, M // 10)), P(max(2, M // 10))
             if not any(cross3(d1 + [0] * (3 - dim), d2 + [0] * (3 - dim))):
@@ -224,6 +245,8 @@ def check_rays_generic(case, ctx):
         triple = sum(p_ * q_ for p_, q_ in zip(pd, cr))
         exp = RI.INTERSECT if triple == 0 else RI.SKEW
         ctx.tag(('ray:generic-cross%dd' % dim) if exp == RI.INTERSECT else 'ray:skew')
+        if cls == 'near-parallel':
+            ctx.tag('ray:near-parallel')
         if not ctx.check(st == exp, 'ray/status', '%s: status %r, exact arithmetic says %r' % (desc, st, exp), what='ray-status'):
             continue
         if exp == RI.INTERSECT:
@@ -233,11 +256,13 @@ def check_rays_generic(case, ctx):
             # conditioning of the parameters: |p_diff| / (|d| sin(angle))
             l1, l2, lp = (math.sqrt(float(sum(x * x for x in v))) for v in (e1, e2, pd))
             sin_ = math.sqrt(float(n2)) / (l1 * l2)
-            tol1, tol2 = 1e-9 * max(1.0, lp / l1 / sin_), 1e-9 * max(1.0, lp / l2 / sin_)
+            # (the end points themselves carry a rounding error of eps*|point| into p_diff: the magnitude that matters is that of the points)
+            pm = max(lp, math.sqrt(float(sum(F(x) ** 2 for x in a))), math.sqrt(float(sum(F(x) ** 2 for x in c))))
+            tol1, tol2 = 1e-9 * max(1.0, pm / l1 / sin_), 1e-9 * max(1.0, pm / l2 / sin_)
             ok = abs(F(t1g) - x1) <= tol1 and abs(F(t2g) - x2) <= tol2
             X_ = [float(F(x) + x1 * F(e)) * sc for x, e in zip(a, e1)]
             p1, p2 = r1.eval(t1g), r2.eval(t2g)
-            tolp = 1e-9 * sc * max(M, max(abs(x) for x in X_) / sc)
+            tolp = 1e-9 * sc * max(M, max(abs(x) for x in X_) / sc) * max(1.0, 1e-3 / sin_)
             ok = ok and all(abs(u - v) <= tolp for u, v in zip(p1, p2)) and all(abs(u - v) <= tolp for u, v in zip(p1, X_))
             ctx.check(ok, 'ray/params', '%s = (%r, %r); exact parameters (%s, %s)' % (desc, t1g, t2g, x1, x2), what='ray-params')
 
